@@ -506,7 +506,9 @@ def fetch_unit(iset):
         contracts[A.translate_address] = Contract(A.translate_address, translate, engine=True)
         contracts[A.alignment_fault] = Contract(A.alignment_fault, align_fault, engine=True)
         eng.contracts = contracts
-        eng.model_hook = lambda model: {'__trace__': [g[0] for g in log]}
+        eng.model_hook = lambda model: {'__trace__': [g[0] for g in log],
+                                        '__reads__': [[sym.evaluate(g[1], model), g[2], sym.evaluate(g[3], model)] for g in log if g[0] == 'hubR'],
+                                        '__xlat__': [[sym.evaluate(g[1], model), sym.evaluate(pa_of(g[1], g[2], g[3]), model)] for g in log if g[0] == 'xlat']}
         aborted = False
         r = None
         try:
@@ -570,7 +572,14 @@ def fetch_unit(iset):
         MC.install_native(cpu, ins, 'PMSA', 1)
         pc = cpu.registers._R[m.registers.RName.PC]
 
+        table = {}
+        for pa_, sz_, v_ in ins.get('__reads__', []):
+            for k_ in range(sz_):
+                table[(pa_ + k_) & 0xFFFFFFFFFF] = (v_ >> (8 * k_)) & 0xFF          # the hub is little-endian (C16)
+
         def byte_at(pa):
+            if pa in table:
+                return table[pa]
             return (pa * 37 + 0xE9) & 0xFF if iset != 'arm' else (pa * 37 + 11) & 0xFF
         log = []
 
@@ -581,18 +590,22 @@ def fetch_unit(iset):
                 return int.from_bytes(bytes(byte_at(d.paddress.physicaladdress + i) for i in range(sz)), 'little')
         cpu.mem = Hub()
 
+        xl = {va_: pa_ for va_, pa_ in ins.get('__xlat__', [])}
+
         def translate(va, ispriv, iswrite, sz, wasaligned):
             d = m.address_descriptor.AddressDescriptor()
-            d.paddress.physicaladdress = va
+            d.paddress.physicaladdress = xl.get(va, va)
             return d
         cpu.translate_address = translate
         r = cpu.fetch_instruction()
+        ppc = xl.get(pc, pc)
+        ppc2 = xl.get((pc + 2) & 0xFFFFFFFF, (pc + 2) & 0xFFFFFFFF)
         if iset == 'arm':
-            exp, elen = int.from_bytes(bytes(byte_at(pc + i) for i in range(4)), 'little'), 32
+            exp, elen = int.from_bytes(bytes(byte_at(ppc + i) for i in range(4)), 'little'), 32
         else:
-            h1 = int.from_bytes(bytes(byte_at(pc + i) for i in range(2)), 'little')
+            h1 = int.from_bytes(bytes(byte_at(ppc + i) for i in range(2)), 'little')
             if (h1 >> 11) in (0b11101, 0b11110, 0b11111):
-                h2 = int.from_bytes(bytes(byte_at(((pc + 2) & 0xFFFFFFFF) + i) for i in range(2)), 'little')
+                h2 = int.from_bytes(bytes(byte_at(ppc2 + i) for i in range(2)), 'little')
                 exp, elen = (h1 << 16) | h2, 32
             else:
                 exp, elen = h1, 16
